@@ -222,17 +222,33 @@ def rule_g(chk: Check) -> None:
     if gt is None:
         chk.floor("G4", "get", 0, 1)
     g2 = build_cfg(chk.proj, gt)
-    ft = [n for n in g2.nodes if n.kind == "test" and dotted(n.ast) == "follow_redirects"]
+    def _flag(n):
+        a, neg = n.ast, False
+        while isinstance(a, ast.UnaryOp) and isinstance(a.op, ast.Not):
+            a, neg = a.operand, not neg
+        return (dotted(a) == "follow_redirects", neg)
+
+    ft = [n for n in g2.nodes if n.kind == "test" and n.ast is not None and _flag(n)[0]]
     ok4 = bool(ft)
     if ft:
-        fs = [b for b, lab in g2.succ[ft[0].id] if lab == "F"]
+        neg = _flag(ft[0])[1]
+        off_lab, on_lab = ("T", "F") if neg else ("F", "T")
+        fs = [b for b, lab in g2.succ[ft[0].id] if lab == off_lab]
         par = g2.reach(fs, follow=normal_only)
         rets = [g2.nodes[i] for i in par if g2.nodes[i].kind == "stmt" and isinstance(g2.nodes[i].ast, ast.Return)]
         ok4 = len(rets) == 1 and isinstance(rets[0].ast.value, ast.Await) and isinstance(rets[0].ast.value.value, ast.Call) and dotted(rets[0].ast.value.value.func) == "self._get_single" and dotted(rets[0].ast.value.value.args[0]) == gt.params[1]
-        ts = [b for b, lab in g2.succ[ft[0].id] if lab == "T"]
+        ts = [b for b, lab in g2.succ[ft[0].id] if lab == on_lab]
         par = g2.reach(ts, follow=normal_only)
         rets = [g2.nodes[i] for i in par if g2.nodes[i].kind == "stmt" and isinstance(g2.nodes[i].ast, ast.Return)]
-        okf = len(rets) == 1 and "self._get_with_redirects" in norm(rets[0].ast) and "max_redirects=self.max_redirects" in norm(rets[0].ast).replace(" ", "").replace("max_redirects=self.max_redirects", "max_redirects=self.max_redirects")
+        okf = False
+        if len(rets) == 1:
+            fc = next((c for c in calls(rets[0].ast) if dotted(c.func) == f"self.{rf.node.name}"), None)
+            if fc is not None:
+                params_ = [p for p in rf.params if p != "self"]
+                mr = kwarg(fc, "max_redirects")
+                if mr is None and "max_redirects" in params_ and len(fc.args) > params_.index("max_redirects"):
+                    mr = fc.args[params_.index("max_redirects")]
+                okf = mr is not None and dotted(mr) == "self.max_redirects"
         ok4 = ok4 and okf
     if not ok4:
         chk.finding("G4", gt.key, "get-dispatch", "get() does not return exactly one unmodified _get_single result when redirects are disabled, or does not hand self.max_redirects to the follower", gt.loc())
@@ -266,6 +282,10 @@ def rule_g6(chk: Check) -> None:
                 return True
             if isinstance(e, ast.Call) and method_call(e) and method_call(e)[1] == "strip" and not e.args:
                 return plain(method_call(e)[0], fi, depth + 1)
+            if isinstance(e, ast.IfExp):
+                # `self.meta if self.is_redirect() else None`
+                arms = [a for a in (e.body, e.orelse) if not (isinstance(a, ast.Constant) and a.value is None)]
+                return bool(arms) and all(plain(a, fi, depth + 1) for a in arms)
             if isinstance(e, ast.Call) and (dotted(e.func) or "").startswith("self.") and not e.args:
                 h = ci.methods.get((dotted(e.func) or "")[5:])
                 return h is not None and all(r.value is not None and plain(r.value, h, depth + 1) for r in walk(h.node) if isinstance(r, ast.Return))
